@@ -181,3 +181,15 @@ fn f14_c11_c12_empty_words_are_accepted() {
     assert_eq!(coset_tables(2, &z2, 3).count(), 8);                                             // panicked in scan_both_ways
 }
 
+// f15 (C13): the same trivial relator made stabilizer() panic (third site of the empty-word family, found by searching for first-letter reads).
+#[test]
+fn f15_c13_stabilizer_accepts_a_trivial_relator() {
+    use rust_dsymbols::fpgroups::cosets::coset_table;
+    use rust_dsymbols::fpgroups::free_words::FreeWord;
+    use rust_dsymbols::fpgroups::stabilizer::stabilizer;
+    let rels = vec![FreeWord::new([1, 1, 1, 1, 1, 1]), FreeWord::new([1, -1])];
+    let ct = coset_table(1, &rels, &vec![FreeWord::new([1, 1])]);
+    assert_eq!(ct.len(), 2);
+    assert_eq!(stabilizer(0, rels.clone(), &ct), stabilizer(0, vec![FreeWord::new([1, 1, 1, 1, 1, 1])], &ct));
+}
+
